@@ -9,9 +9,9 @@ class Engine:
     def run(self, ctx):
         thorough = (ctx.only.get("tier", ctx.tier) if ctx.only else ctx.tier) == "thorough"
         ctx.rule("every instruction class and macro-instruction class of ppci.arch.riscv (isa, rvcisa) x {register "
-                 "sweeps (quick: x0 x1 x2 x8 x9 x10 x15 x16 x31), diagonal, in-range boundary immediates / "
+                 "sweeps (quick: x0 x1 x2 x8 x10 x15 x31), diagonal, in-range boundary immediates / "
                  "displacements from TLC}; ppci supplies the bytes and used_registers / defined_registers / clobbers; "
-                 "TLC runs RV32.Exec from state pairs of RV32!PairPlan (quick: 3 of 12 per instance, rotating) that agree on the "
+                 "TLC runs RV32.Exec from state pairs of RV32!PairPlan (quick: 2 of 12 per instance, rotating over the instances of a class) that agree on the "
                  "declared reads (+ pc, memory, x2 where the compressed instruction names it implicitly) and checks "
                  "the four clauses; distinct = distinct (class, printed text, symbol)")
         ctx.assume("declared registers are read by their printed name x<n>; CSR instructions, ebreak, mret are judged "
